@@ -10,6 +10,8 @@
 (*                                                                         *)
 (*    l2/l3/t            the TARGET (working directory / new instance)     *)
 (*    l2/l3/a            a file outside        l2/l3/b/a  another one      *)
+(*                       (the driver renders b as "tb" and the target as   *)
+(*                       "t": a sibling whose name extends the target's)   *)
 (*    l2/l3/p, l2/l3/q   sources (package folders / producer directories), *)
 (*                       each with a file `a` and a directory `d` (file a) *)
 (*                                                                         *)
@@ -31,8 +33,11 @@
 (* `Apply` is the effect of one member/entry/operation with POSIX          *)
 (* semantics: missing parents are created (makedirs), symbolic links met   *)
 (* on the way are followed, a file written at a symbolic link goes through *)
-(* it, attributes of directory / hard-link members are applied to the      *)
-(* inode.  Every location created or modified goes to `writes`.            *)
+(* it, attributes of hard-link members are applied to the shared inode,    *)
+(* attributes of directory members are applied when the whole archive has  *)
+(* been extracted (to what their path names then), a link that cannot be   *)
+(* made falls back to extracting the earlier member it names (tarfile).    *)
+(* Every location created or modified goes to `writes`.                    *)
 (*                                                                         *)
 (* The stager is a state machine  guard -> run(member 1..n) -> done,       *)
 (* parameterised by its Guard:                                             *)
@@ -59,6 +64,7 @@ CONSTANTS Mode,
           LinkSegs, LinkMaxLen,  \* archive: link targets
           MaxMembers,
           Srcs,                  \* manifest: source folders used ({"p"} or {"p", "q"})
+          Pattern,               \* archive: "any", or "dir-sym-file": only archives whose members have these kinds in this order
           Guard,
           Emit
 
@@ -252,7 +258,8 @@ Members ==
       [] Mode = "manifest" -> [k : {"copy", "link"}, n : Names, t : Srcs]
       [] OTHER -> [k : {"copy", "link"}, n : {<<>>}, t : {"pa", "qa", "pd", "qd"}] \cup {[k |-> "extract", n |-> <<>>, t |-> "arch"]}
 Distinct(inp) == \A i, j \in 1..Len(inp) : i # j => inp[i].n # inp[j].n
-Inputs == {inp \in SeqsUpTo(Members, MaxMembers) : Mode = "manifest" => Distinct(inp)}
+Shaped(inp) == Pattern = "any" \/ (Len(inp) = 3 /\ inp[1].k = "dir" /\ inp[2].k = "sym" /\ inp[3].k = "file")
+Inputs == {inp \in SeqsUpTo(Members, MaxMembers) : (Mode = "manifest" => Distinct(inp)) /\ Shaped(inp)}
 
 (* what the two guards look at *)
 PrefixRejects(inp) == Mode # "stage" /\ \E i \in 1..Len(inp) : inp[i].n[1] = ""
